@@ -47,6 +47,8 @@ def classes(h):
         out.append('queue_prelude')
     if 'backport_prelude' in h.flags:
         out.append('backport_prelude')
+    if 'rename_prelude' in h.flags:
+        out.append('rename_prelude')
     return out
 
 
@@ -91,8 +93,48 @@ def backport_prelude(data, hist):
     hist.flags.add('backport_prelude')
 
 
+def rename_prelude(data, hist):
+    """Two pull requests on the same older destination edit different lines
+    of a file that was renamed on the newest branch; the one that forked
+    first is merged last (real three-way merges that must follow a rename:
+    where octopus and consecutive merges part ways)."""
+    from hypothesis import strategies as st
+    from vf.sim.world import AUTHOR, AUTHOR2, PEER1, PEER2
+    w = hist.world
+    chain = [n for n in w.chain if n in w.heads()]
+    if len(chain) < 2:
+        return
+    dst = chain[data.draw(st.integers(0, len(chain) - 2), label='rdst')]
+    l1 = data.draw(st.integers(0, 8), label='l1')
+    l2 = data.draw(st.integers(11, 19), label='l2')
+    hist.apply({'op': 'open_pr', 'src': 'bugfix/TEST-1-rn', 'dst': dst,
+                'author': AUTHOR, 'base_back': 0, 'shared': l1})
+    hist.apply({'op': 'open_pr', 'src': 'feature/TEST-2-rn', 'dst': dst,
+                'author': AUTHOR2, 'base_back': 0, 'shared': l2})
+    prs = sorted(w.prs)
+    for pr in reversed(prs):
+        for u in (PEER1, PEER2, w.prs[pr]['author']):
+            hist.apply({'op': 'approve', 'pr': pr, 'user': u})
+        for _ in range(2):
+            hist.apply({'op': 'pr_event', 'pr': pr})
+            hist.apply({'op': 'report_pr', 'pr': pr, 'state': 'SUCCESSFUL'})
+        hist.apply({'op': 'pr_event', 'pr': pr})
+        if w.mode != 'noqueue':
+            hist.apply({'op': 'report_queue', 'states': ['SUCCESSFUL']})
+            qs = sorted(n for n in w.heads() if n.startswith('q/') and
+                        not n.startswith('q/w/'))
+            if qs:
+                hist.apply({'op': 'commit_event', 'sel': {'ref': qs[0]}})
+        if hist.violations:
+            return
+    hist.flags.add('rename_prelude')
+
+
 def prelude(data, hist):
     from hypothesis import strategies as st
+    if hist.params.get('rename') and data.draw(st.integers(0, 1),
+                                               label='rename_prelude'):
+        return rename_prelude(data, hist)
     if data.draw(st.integers(0, 5), label='backport') == 0:
         return backport_prelude(data, hist)
     # uniform histories rarely hold several queued PRs at once: in half of
